@@ -1,8 +1,8 @@
 (* C20 — async iterator yields what the blocking iterator yields.  Statements only.
    On the pinned code the property does not hold for every poll schedule (known finding D15: a schedule on which a parse step
    finds the inner iterator short of data before the source is exhausted yields a spurious end-of-file); what is proved is the
-   part that holds, and the refutation witness is exhibited. *)
-From Ebml Require Import Base Tools Spec Reader Pure Proofs.Tactics Proofs.ReaderIO Proofs.Refine Proofs.AsyncProofs.
+   part that holds — the schedules that keep the delivered data ahead of the parser — and the refutation witness is exhibited. *)
+From Ebml Require Import Base Tools Spec Reader Pure Proofs.Tactics Proofs.ReaderIO Proofs.Refine Proofs.AsyncProofs Proofs.AsyncAhead.
 
 (* PARTIAL (C20_first_read_partial): if the source delivers the whole input (at most 64 KiB) with its first read, the
    non-blocking iterator yields exactly the items, offsets and errors of the abstract reader — which is what the blocking
@@ -12,6 +12,58 @@ Theorem C20_first_read_partial : forall c input script n rest_script,
   (script = [] \/ (script = Chunk n :: rest_script /\ N.of_nat (length input) <= n /\ rest_script = [])) ->
   run_async c script input = snd (p_run_all (4 * length input + 64) c (p_init input)).
 Proof. exact async_first_read. Qed.
+
+(* PREFIX MONOTONICITY of the abstract reader (AsyncAhead.ext st y = st with y appended to its remaining input, all else equal).
+   A step that yields an item and does not depend on where the input ends is the same step on every longer input.  "Does not
+   depend on where the input ends" is: after the step 16 bytes are still unread (a header look-ahead is at most 8 + 8 bytes,
+   payloads are consumed exactly) and no end-of-file error is waiting in the queue ([noeof]: a payload that is longer than the
+   rest of the input is the one place where the reader depends on more than 16 bytes; the error is queued behind the End items
+   of the masters that closed just before, so the call itself can still yield an item).  Slack alone is not sufficient.
+   Holds for every configuration, buffered masters included. *)
+Theorem C20_prefix_monotone : forall c st y t off st1,
+  p_next c st = (st1, NItem t off) ->
+  (16 <= length (b_bytes st1))%nat -> noeof (b_queue st1) ->
+  p_next c (ext st y) = (ext st1 y, NItem t off).
+Proof. exact p_next_ext. Qed.
+
+(* the same for any result that is not an end-of-file error (other errors, bad states) *)
+Theorem C20_prefix_monotone_gen : forall c st y st1 r,
+  p_next c st = (st1, r) ->
+  (16 <= length (b_bytes st1))%nat -> noeof (b_queue st1) -> nres_noeof r ->
+  p_next c (ext st y) = (ext st1 y, r).
+Proof. exact p_next_ext_gen. Qed.
+
+(* ONE CALL of the wrapper ([afull a] = the input the inner iterator has not consumed followed by what the source has not
+   delivered): if the source does not fail and after the call either everything has been delivered or the inner iterator is
+   still ahead ([step_ahead]: 16 delivered bytes unread, no end of file reported or queued), the call is one step of the
+   abstract reader on the whole remaining input *)
+Theorem C20_one_call : forall c a,
+  Good (a_inner a) -> a_slen a = N.of_nat (length (a_src a)) -> no_fail_head (a_script a) = true ->
+  step_ahead (fst (anext c a)) (snd (anext c a)) = true ->
+  p_next c (afull a) = (afull (fst (anext c a)), snd (anext c a)).
+Proof. exact anext_ahead. Qed.
+
+(* PARTIAL (C20_ahead_partial): on every schedule that keeps the wrapper ahead along its run ([aheadb], a computable check
+   mirroring [arun]: the source never fails — it may pause —, and after every call either the source has delivered everything
+   or the inner iterator still holds 16 unread delivered bytes and has neither reported nor queued an end of file), the
+   non-blocking iterator yields exactly the run of the abstract reader on the whole input ... *)
+Theorem C20_ahead_partial : forall c script input,
+  aheadb (4 * length input + 64) c (a_init script input) = true ->
+  run_async c script input = snd (p_run_all (4 * length input + 64) c (p_init input)).
+Proof. exact async_ahead. Qed.
+
+(* ... that is, what the blocking iterator yields for every buffer capacity and every chunking of its source *)
+Theorem C20_ahead_blocking : forall c script input cap0 s, calm s ->
+  aheadb (4 * length input + 64) c (a_init script input) = true ->
+  run_async c script input = run_reader c cap0 s input [RAll].
+Proof. exact async_ahead_blocking. Qed.
+
+(* the criterion covers C20_first_read_partial (with any later schedule that does not fail) *)
+Theorem C20_ahead_covers_first_read : forall c input script,
+  N.of_nat (length input) <= 65536 -> nofail script = true ->
+  (match script with Chunk n :: _ => N.of_nat (length input) <= n | Pause :: _ => input = [] | _ => True end) ->
+  aheadb (4 * length input + 64) c (a_init script input) = true.
+Proof. exact aheadb_first_read. Qed.
 
 (* the full statement is false of the faithful model: witness = a 14-byte document whose first read delivers 1 byte *)
 Theorem C20_refuted : exists c input script,
@@ -30,3 +82,25 @@ Example C20_ex :
               c_buffered := []; c_emit_eof := true |} in
   run_async c [] [129; 132; 65; 1; 129; 7] = [OItem (TStart 129) 0; OItem (TElem 16641 (VU 7)) 2; OItem (TEnd 129) 0; ONone].
 Proof. vm_compute. reflexivity. Qed.
+
+(* a 303-byte document (a root master with six 50-byte masters: an unsigned integer and a 40-byte binary each) read through
+   the wrapper: with a first read of 60 bytes and then 13 bytes per call (19 reads; a master of 50 bytes takes 4 calls) the
+   schedule stays ahead and the run is the blocking run; with a first read of 10 bytes and then 1 byte per call the inner
+   iterator starves at the first binary payload and the wrapper reports an end of file at offset 10 *)
+Example C20_ahead_ex :
+  let sp := [ {| e_id := 129; e_ty := DMaster; e_path := [] |}; {| e_id := 16643; e_ty := DMaster; e_path := [PId 129] |};
+              {| e_id := 16641; e_ty := DUInt; e_path := [PId 129; PId 16643] |}; {| e_id := 16642; e_ty := DBinary; e_path := [PId 129; PId 16643] |} ] in
+  let c := {| c_sp := sp; c_allow_id := false; c_allow_hier := false; c_allow_over := false; c_max := Some 4000000000;
+              c_buffered := []; c_emit_eof := true |} in
+  let blk (v : N) : list N := [65; 3; 175; 65; 1; 129; v; 65; 2; 168] ++ repeat v 40 in
+  let doc : list N := [129; 65; 44] ++ concat (map blk [1; 2; 3; 4; 5; 6]) in
+  let ahead := Chunk 60 :: repeat (Chunk 13) 19 in
+  let starved := Chunk 10 :: repeat (Chunk 1) 3 in
+  length doc = 303%nat /\
+  aheadb (4 * length doc + 64) c (a_init ahead doc) = true /\
+  run_async c ahead doc = run_reader c 65536 [] doc [RAll] /\
+  aheadb (4 * length doc + 64) c (a_init starved doc) = false /\
+  run_async c starved doc =
+    [OItem (TStart 129) 0; OItem (TStart 16643) 3; OItem (TElem 16641 (VU 1)) 6; OErr (REof 10 (Some 16642) (Some 40) (Some []))] /\
+  run_async c starved doc <> run_reader c 65536 [] doc [RAll].
+Proof. vm_compute. split; [reflexivity|]. split; [reflexivity|]. split; [reflexivity|]. split; [reflexivity|]. split; [reflexivity|discriminate]. Qed.
